@@ -77,7 +77,7 @@ def collect(chk, pid, jobs):
                 chk.add_violation(clause, sig, {'trace': tid, 'line': line, 'event': ev}, {'job': job, 'line': line})
 
 
-SYS_PROPS = dict(invariants=['SYS_ExactlyOnce', 'SYS_ViewsTruthful', 'SYS_IdleMeansIdle', 'SYS_Rest'], properties=['SYS_ReloadOnlyWhenTrulyAllowed', 'SYS_NoDispatchWhileInactive'])
+SYS_PROPS = dict(invariants=['SYS_ExactlyOnce', 'SYS_ViewsTruthful', 'SYS_IdleMeansIdle', 'SYS_Rest', 'SYS_ReleasedFlyOrParked', 'SYS_ParkedNotFlying'], properties=['SYS_ReloadOnlyWhenTrulyAllowed', 'SYS_NoDispatchWhileInactive', 'SYS_NoArchiveOverParked'])
 
 
 def composition(chk, pid, thorough, seed, rnd):
@@ -115,7 +115,20 @@ def composition(chk, pid, thorough, seed, rnd):
         # a waiter that looks (and, in the correct code, may have to keep waiting) is what matters here
         looks = [h for h in guided if any(e['ev'] == 'PollerObserve' for e in h)]
         guided = looks + [h for h in guided if not any(e['ev'] == 'PollerObserve' for e in h)][:300]
-    hs = hs + guided
+    # guided instance 2 (worker scarcity): an archive is due and a unit is released while no worker is there; it waits in
+    # the farm; from there everything (workers arriving, scarce / plentiful passes, submissions), maximal histories
+    cfg = os.path.join(chk.work, 'gen_guided2.cfg')
+    tlc.write_cfg(cfg, spec='Guided2Spec', constants={'MaxRun': '3', 'MaxSubmit': '1', 'MaxCycle': '0'}, extra=['VIEW View', 'ACTION_CONSTRAINT Emit'])
+    res = tlc.run('System_Gen.tla', cfg, workers=1, timeout=1800, out_file=os.path.join(chk.work, 'gen_guided2.out'))
+    if not res.ok:
+        raise core.Machinery(f'generation gen_guided2 failed: {res.error or res.violated}')
+    chk.mc_runs.append(dict(res.summary(), name='gen_guided2', module='System_Gen.tla'))
+    guided2 = leaves([json.loads(r[1])['h'] for r in tlc.printed(res, 'SCHED')])
+    chk.counters['system_scarcity_histories'] = len(guided2)
+    if not thorough:
+        rnd.shuffle(guided2)
+        guided2 = guided2[:600]
+    hs = hs + guided + guided2
     jobs = [{'id': i, 'events': h, 'drain': True} for i, h in enumerate(hs)]
     files = chk.run_harness('compose_h', jobs)
     chk.traces += len(jobs)
